@@ -3,7 +3,7 @@
    re-evaluated by the kernel whenever the source (hence the generated file) changes; the
    other theorems hold for ANY tables that pass the checks. *)
 From Coq Require Import String List Bool ZArith Lia.
-From V Require Import Tables Convert ModsRepr AttrsPath.
+From V Require Import Tables Convert ModsRepr AttrsPath PerfConv.
 Import ListNotations.
 
 (* ================================ C07 ================================ *)
@@ -299,3 +299,15 @@ Proof. exact (attrs_path_eq Map Attrs Diff Spec State Out difficulty gen pp perf
 
 Lemma tables_clock_rate : rate_check clock_rate_arms = true.
 Proof. vm_compute. reflexivity. Qed.
+
+(* TryFrom<OsuPerformance>: every field of the three target builders is initialised from its
+   osu! counterpart (same name or documented alias), fields without counterpart start unset *)
+Theorem tables_perf_conv : perf_conv_ok = true.
+Proof. vm_compute. reflexivity. Qed.
+
+(* what the check means for a single field *)
+Lemma carries_ok_field row dst src : carries_ok row = true -> In (dst, src) row -> src = expected_source dst.
+Proof.
+  unfold carries_ok. intros H Hin. apply andb_true_iff in H. destruct H as [_ H].
+  rewrite forallb_forall in H. specialize (H _ Hin). cbn [fst snd] in H. now apply String.eqb_eq in H.
+Qed.
